@@ -92,6 +92,84 @@ def _sig(family, which, call):
     return (True, True, None)
 
 
+def broadcast_ob(family, which, call, prop):
+    """bs_<family>_<which> on operands of DIFFERENT shapes - x: (), t: (3,), v: (1,), m: (2, 3), scalar strike - returns the
+    broadcast shape (2, 3) (or (3,) without m) and, element by element, the value of the scalar case."""
+    import time
+    from pfv import smt
+    from pfv.framework import Obligation, Verdict, real_exec
+    from pfv.proxies import explore, SReal, Unsupported
+    wm, st, cl = _sig(family, which, call)
+    tag = ('call' if call else 'put') if call is not None else ''
+    snippet = ('import pfhedge.nn.functional as F\n'
+               'x = T(0.1); t = T([0.3, 0.7, 1.1]); v = T([0.25]); m = T([[0.15, 0.2, 0.3], [0.12, 0.5, 0.11]]); K = 1.3\n'
+               'kw = {}\n'
+               + ('kw["strike"] = K\n' if st else '') + ('kw["call"] = %r\n' % cl if cl is not None else '') +
+               'args = (x, m, t, v) if %r else (x, t, v)\n' % wm +
+               'out = F.bs_%s_%s(*args, **kw)\n' % (family, which) +
+               'ref = [[float(F.bs_%s_%s(*((x, m[i, j], t[j], v[0]) if %r else (x, t[j], v[0])), **kw)) for j in range(3)] for i in range(2 if %r else 1)]\n' % (family, which, wm, wm) +
+               'result = {"got": [list(out.shape), out.reshape(-1).tolist()], "ref": [[2, 3] if %r else [3], [q for row in ref for q in row]]}' % wm)
+
+    def check():
+        t0 = time.time()
+        import torch
+        import pfhedge.nn.functional as Fm
+        from pfv.torchlib.tensor import Tensor, inline_leaves, ti
+        i_, j_ = tm.var('bi', 'I'), tm.var('bj', 'I')
+        fa = tm.var('fa', 'I')
+        hyps = [tm.gt(K, tm.ZERO), tm.gt(tm.sel('vb', tm.IZERO), tm.ZERO), tm.forall(fa, tm.IZERO, tm.const(3, 'I'), tm.gt(tm.sel('tb', fa), tm.ZERO))]
+        fb = tm.var('fb', 'I')
+        if wm:
+            # the same branch for every element (running maximum above the strike and above the spot): element-wise code does not fork
+            hyps.append(tm.forall(fa, tm.IZERO, tm.const(2, 'I'), tm.forall(fb, tm.IZERO, tm.const(3, 'I'), tm.and_(tm.gt(tm.sel('mb', fa, fb), tm.ZERO), tm.ge(tm.sel('mb', fa, fb), tm.var('xb'))))))
+
+        def run(c):
+            kw = dict(log_moneyness=Tensor.input('xb', (), torch.float64), time_to_maturity=Tensor.input('tb', (3,), torch.float64), volatility=Tensor.input('vb', (1,), torch.float64))
+            if wm:
+                kw['max_log_moneyness'] = Tensor.input('mb', (2, 3), torch.float64)
+            if st:
+                kw['strike'] = SReal(K)
+            if cl is not None:
+                kw['call'] = cl
+            return getattr(Fm, 'bs_%s_%s' % (family, which))(**kw)
+        try:
+            paths = explore(run, hyps, max_paths=16)
+        except Unsupported as e:
+            return Verdict('unknown', 'engine', time.time() - t0, 'out of reach: %s' % e)
+        want_shape = (2, 3) if wm else (3,)
+        for p in paths:
+            if p.outcome() != 'returns':
+                from pfv import fc
+                if p.exception is not None and not fc._from_repo_or_contract(p):
+                    return Verdict('unknown', 'engine', time.time() - t0, 'path %s: %s %s' % (p.outcome(), p.exception, p.traceback[-500:]))
+                rr = real_exec(snippet, {})
+                return Verdict('refuted', 'path-exploration', time.time() - t0, 'operands of shapes (), (3,), (1,)%s: %s: %s' % (', (2,3)' if wm else '', p.outcome(), str(p.exception)[:200]),
+                               witness={'shapes': 'x: (), t: (3,), v: (1,)' + (', m: (2,3)' if wm else '')}, replay={'real': rr, 'confirmed': not rr.get('ok') or rr['result']['got'] != rr['result']['ref']})
+            res = p.result
+            if tuple(res._shape) != want_shape:
+                rr = real_exec(snippet, {})
+                return Verdict('refuted', 'shape', time.time() - t0, 'result shape %s, broadcast shape %s' % (res._shape, want_shape), witness={'shape': str(res._shape)},
+                               replay={'real': rr, 'confirmed': not rr.get('ok') or rr['result']['got'][0] != rr['result']['ref'][0]})
+            idx = (i_, j_) if wm else (j_,)
+            rng = [tm.le(tm.IZERO, j_), tm.lt(j_, tm.const(3, 'I'))] + ([tm.le(tm.IZERO, i_), tm.lt(i_, tm.const(2, 'I'))] if wm else [])
+            el = inline_leaves(res.at(idx), p.ctx)
+            scal_hyps = B.OPEN + ([tm.gt(m, tm.ZERO), tm.ge(m, x)] if wm else [])
+            scal = fterm(family, which, call, scal_hyps)
+            sub = {x: tm.var('xb'), t: tm.sel('tb', j_), v: tm.sel('vb', tm.IZERO)}
+            if wm:
+                sub[m] = tm.sel('mb', i_, j_)
+            want = tm.subst(scal, sub)
+            r = smt.prove(p.facts(hyps) + rng, tm.eq(el, want), timeout_ms=20000)
+            if r.status != 'unsat':
+                rr = real_exec(snippet, {})
+                conf = rr.get('ok') and any(abs(a_ - b_) > 1e-9 * max(1.0, abs(b_)) for a_, b_ in zip(rr['result']['got'][1], rr['result']['ref'][1]))
+                return Verdict('refuted' if (r.status == 'sat' and conf) else 'unknown', r.backend, time.time() - t0, 'element [i,j] of the broadcast result differs from the scalar evaluation at (x, m[i,j], t[j], v[0])',
+                               witness={'element': tm.show(el)[:300], 'scalar': tm.show(want)[:300]}, replay={'real': rr, 'confirmed': bool(conf)})
+        return Verdict('proved', 'path-exploration + z3 (UF)', time.time() - t0, '%d path(s)' % len(paths), sample={'claim': 'broadcast shape and element-wise value', 'shapes': 'x: (), t: (3,), v: (1,)' + (', m: (2,3)' if wm else '')})
+    return Obligation('%s/bs_%s_%s/broadcast%s' % (prop, family, which, ('[%s]' % tag) if tag else ''), 'post', 'pfhedge.nn.functional.bs_%s_%s' % (family, which), check, [prop],
+                      clause='bs_%s_%s broadcasts its operands (x: (), t: (3,), v: (1,)%s) and evaluates element-wise' % (family, which, ', m: (2,3)' if wm else ''))
+
+
 def branches(family):
     if family in ('american_binary',):
         return [('m<0', OPEN + [tm.lt(m, tm.ZERO), tm.le(x, m)], 'neg'), ('m>=0', OPEN + [tm.ge(m, tm.ZERO), tm.le(x, m)], 'pos')]
@@ -337,6 +415,15 @@ def build(tier, seed):
                              lambda: tm.subst(fterm('european_binary', 'gamma', True, OPEN), {tm.app('sqrt', t): tm.mul(t, t)}),
                              lambda: reference(fterm('european_binary', 'price', True, OPEN), 'gamma'),
                              OPEN, 'CANARY (must be refuted): binary gamma with sqrt(t) replaced by t^2 (the defect fixed in 0345cb1)', seed=seed, kind='canary'))
+    # operands of different shapes: broadcast shape and element-wise value of every closed-form Greek
+    for family, spec in FAMILIES.items():
+        if family == 'lookback':
+            continue          # lookback Greeks are taken by autograd of the price (covered by the autogreek obligations)
+        for call in spec['calls']:
+            for which in ('delta', 'gamma', 'vega', 'theta'):
+                if family == 'european' and which != 'delta' and call is False:
+                    continue
+                obs.append(broadcast_ob(family, which, call, PROP))
     return {
         'obligations': obs,
         'functions': FUNCTIONS,
